@@ -1167,8 +1167,10 @@ Qed.
 (* what stays outside C02_full, by name:
    (a) files of SEVERAL SECTIONS (ref_write_multi: Prev chain, objects listed again, superseded definitions) are not single-section
        files: they are C02_loads_multi_mixed below (same conclusion), for every such file WITHOUT object streams; with object
-       streams across parts only the format-independent half is proved (C02_prev_chain, C02_merge_newest_wins,
-       C02_load_chain_frame, C02_merge_object_streams), the rest is checked by correspondence and direct verdict (load-multi* cases).
+       streams: one-part files are C02_loads_multi_objstm_partial (C02_full_all_partial is the union of everything proved); for two
+       or more parts the format-independent half (C02_prev_chain, C02_merge_newest_wins, C02_load_chain_frame,
+       C02_merge_object_streams) and the writer's half of the merged table (C02_multi_members_named, C02_multi_known_current_file)
+       are proved, the rest is checked by correspondence and direct verdict (load-multi* cases).
    (b) the class of C02-deep-parens is stated on the RAW parentheses of the spelling (raw_depth_ok), the check's class
        Known_deep_parens on all parentheses of the string: a style that escapes closing parentheses while leaving more than
        100 opening ones raw is in the theorem's class but not in the check's (not drawn by the generator). *)
